@@ -316,3 +316,46 @@ func init() {
 }
 
 type gosyncMutex = sync.Mutex
+
+// c34blocked: a committer races a DropPrefix of a prefix that matches nothing (it only blocks and
+// unblocks writes); the commit either succeeds or is refused with ErrBlockedWrites AFTER its commit
+// timestamp was allocated.  Either way the commit has finished: readers that start later must be
+// released (the refused commit's timestamp must be marked done) and see a consistent state.
+func init() {
+	var dropErr error
+	registerSched(&schedScenario{
+		name:   "c34blocked",
+		points: append(append([]string{}, c03Points...), "drop.block", "commit.sent", "send.enqueue"),
+		setup: func(x *schedExec) {
+			x.db = mustOpen(smallOpts(x.dir))
+			x.state = &c03State{h: &hist{}, keys: []string{"a", "b"}}
+			dropErr = nil
+		},
+		threads: func(x *schedExec) []sched.Thread {
+			return []sched.Thread{
+				c03Committer(x, "T1", map[string]string{"a": "T1", "b": "T1"}, x.j.Int("case", 0) == 1),
+				{Name: "Block", Body: func() {
+					x.s.Point("op")
+					dropErr = x.db.DropPrefix([]byte("zz"))
+				}},
+				c03Reader(x, "R1", 1),
+			}
+		},
+		check: func(x *schedExec) (string, string, string) {
+			// a later committer and reader must get through
+			if err := x.db.Update(func(txn *Txn) error { return txn.Set([]byte("after"), []byte("init-after")) }); err != nil {
+				return "", "commit after the race: " + err.Error(), "unexpected-error"
+			}
+			if dropErr != nil {
+				return "", "DropPrefix: " + dropErr.Error(), "drop-error"
+			}
+			st := x.state.(*c03State)
+			for _, t := range st.h.txns {
+				if t.Update && t.Err != nil && t.Err != ErrBlockedWrites && t.Err != ErrConflict {
+					return "", fmt.Sprintf("commit %s returned %v", t.Name, t.Err), "unexpected-error"
+				}
+			}
+			return c03Check(x)
+		},
+	})
+}
